@@ -8,7 +8,9 @@ A *case* is a dict
   sheets : [(sid, parent|None, kind)]   sid 0 = root module; kind 'import' | 'include'
   decls  : [(sid, name, pattern, use)]  name = 'k' or '{uri}k'; pattern / use = XPath texts of the fragment
                                         understood by lean/XalanModel/C15/Concrete.lean
-  calls  : [{'doc': k, 'ctx': j, 'name': n, 'kind': 'str', 'value': v} |     (ctx: 0 root, j>0 j-th non-attribute node,
+  calls  : (optional 'form': 'pred'|'step' with 'cur', 'curctx': key() inside a predicate over all nodes of doc while the XSLT
+            current node is node curctx of document cur)
+           [{'doc': k, 'ctx': j, 'name': n, 'kind': 'str', 'value': v} |     (ctx: 0 root, j>0 j-th non-attribute node,
                                                                               j<0 (-j)-th attribute, as context node)
             {'doc': k, 'ctx': j, 'name': n, 'kind': 'ns', 'argdoc': d, 'pat': p}]
 `request_lines(case)` gives the protocol lines (model lines + `file` lines for the harness + `run`).
@@ -38,7 +40,7 @@ def gen_elem(r, budget, depth):
     for _ in range(n):
         if budget[0] <= 0:
             break
-        k = r.weighted([("E", 6), ("T", 3), ("C", 1), ("P", 1)])
+        k = r.weighted([("E", 12), ("T", 6), ("C", 2), ("P", 2), ("W", 1)])
         if k == "E" and depth < 4:
             budget[0] -= 1
             kids.append(gen_elem(r, budget, depth + 1)); last_text = False
@@ -47,13 +49,18 @@ def gen_elem(r, budget, depth):
                 continue
             budget[0] -= 1
             kids.append(("T", r.choice([v for v in VALS if v]))); last_text = True
+        elif k == "W":      # a whitespace-only text node (kept unless xsl:strip-space applies to this element)
+            if last_text:
+                continue
+            budget[0] -= 1
+            kids.append(("T", " ")); last_text = True
         elif k == "C":
             budget[0] -= 1
             kids.append(("C", r.choice(VALS))); last_text = False
         elif k == "P":
             budget[0] -= 1
             kids.append(("P", r.choice(PIS), r.choice(VALS))); last_text = False
-    return ("E", name, attrs, kids, r.chance(1, 12))
+    return ("E", name, attrs, kids, r.chance(1, 6))
 
 
 def gen_doc(r, maxnodes):
@@ -68,7 +75,44 @@ def gen_doc(r, maxnodes):
 
 
 def tok(v):
-    return v if v != "" else "-"
+    """protocol token of a value: "-" = empty string, "~" = a space (values are alphanumeric otherwise)"""
+    return v.replace(" ", "~") if v != "" else "-"
+
+
+def strip_pred(case):
+    """element name -> are its whitespace-only text children stripped?  xsl:strip-space / xsl:preserve-space with XSLT 1.0
+    3.4 conflict resolution: a name test (priority 0) beats `*` (priority -0.5); the generator never puts one name in both"""
+    st, pr = case.get("strip") or [], case.get("preserve") or []
+    if not st:
+        return None
+
+    def f(name):
+        if name in pr:
+            return False
+        if name in st:
+            return True
+        if "*" in pr and "*" not in st:
+            return False
+        return "*" in st
+    return f
+
+
+def drop_stripped_ws(t, f):
+    """remove the whitespace-only text nodes that xsl:strip-space removes (the model's document is the stripped one)"""
+    def go(n):
+        if n[0] == "R":
+            return ("R", [go(k) for k in n[1]])
+        if n[0] == "E":
+            ks = [go(k) for k in n[3] if not (k[0] == "T" and k[1].strip() == "" and f is not None and f(n[1]))]
+            # removing a node must not leave two text nodes adjacent
+            out = []
+            for k in ks:
+                if out and out[-1][0] == "T" and k[0] == "T":
+                    continue
+                out.append(k)
+            return ("E", n[1], n[2], out, n[4] if len(n) > 4 else False)
+        return n
+    return go(t)
 
 
 def doc_tokens(t):
@@ -80,7 +124,7 @@ def doc_tokens(t):
             for k in n[1]:
                 go(k)
         elif n[0] == "E":
-            out.extend(["E", n[1], str(len(n[2])), str(len(n[3]))])
+            out.extend(["EN" if (len(n) > 4 and n[4]) else "E", n[1], str(len(n[2])), str(len(n[3]))])
             for a, v in n[2]:
                 out.extend(["A", a, tok(v)])
             for k in n[3]:
@@ -96,13 +140,13 @@ def doc_tokens(t):
 
 
 def doc_xml(t, strip=None):
-    """strip: None, or the set of element names (or {"*"}) declared in xsl:strip-space — whitespace-only text nodes are
+    """strip: None, or the predicate `strip_pred(case)` (element name -> stripped?) — whitespace-only text nodes are
     then put between the children of exactly those elements (never next to a text node), so that the document *after*
     stripping is the tree `t`"""
     out = []
 
     def ws(n, i):
-        if strip is None or n[0] != "E" or not ("*" in strip or n[1] in strip):
+        if strip is None or n[0] != "E" or not strip(n[1]):
             return ""
         ks = n[3]
         left_text = i > 0 and ks[i - 1][0] == "T"
@@ -265,22 +309,44 @@ USE_PATHS = ["@x", "@y", "@*", ".", "b", "a", "*", "text()", "../@x", "b/@x", ".
              "c/text()"]
 USE_SCALARS = ["string(@x)", "string(@y)", "name()", "'u'", "count(*)", "count(@*)", "@x='u'", "string(.)", "string(b)",
                "concat(string(@x),'-',string(@y))", "concat(name(),string(@x))", "string(../@x)", "count(.//b)",
-               "string(text())"]
+               "string(text())", "position()", "last()", "concat(name(),position())", "concat(last(),'-',string(@x))"]
 
 
-def gen_use(r):
+def gen_use(r, allow_ns=True):
+    if allow_ns and r.chance(1, 14):
+        # namespace nodes as key values (their string value is the namespace URI); not with result tree fragments, whose
+        # elements also carry the stylesheet's namespaces
+        return r.choice(["namespace::*", "namespace::*", "count(namespace::*)", "../namespace::*"])
     return r.choice(USE_PATHS) if r.chance(3, 5) else r.choice(USE_SCALARS)
 
 
 def use_is_path(u):
-    return not (u.startswith("concat(") or u == "name()" or u.startswith("'") or u.startswith("string(")
+    return not (u.startswith("concat(") or u in ("name()", "position()", "last()") or u.startswith("'") or u.startswith("string(")
                 or u.startswith("count(") or "='" in u)
 
 
 # ------------------------------------------------------------------ cases
 def gen_case(r, cid, big=False):
     ndocs = r.weighted([(1, 4), (2, 4), (3, 2)])
-    docs = [gen_doc(r, 40 if big else 20) for _ in range(ndocs)]
+    ws = {}
+    if r.chance(1, 4):
+        # xsl:strip-space (and, half of the time, xsl:preserve-space for other name tests): whitespace-only text nodes of
+        # the stripped elements are not in the model's documents, those of the preserved ones are ordinary text nodes
+        names = r.shuffle(ELEMS)
+        k = r.range(1, 2)
+        if r.chance(1, 2):
+            ws["strip"] = ["*"]
+            if r.chance(1, 2):
+                ws["preserve"] = names[:k]
+        else:
+            ws["strip"] = names[:k]
+            if r.chance(1, 2):
+                ws["preserve"] = ["*"] if r.chance(1, 2) else names[k:k + 1]
+    spred = strip_pred(ws)
+    docs = [drop_stripped_ws(gen_doc(r, 40 if big else 20), spred) for _ in range(ndocs)]
+    rtf = [k for k in range(1, ndocs) if r.chance(1, 3)]
+    for k in rtf:       # result tree fragments are not subject to the source-document whitespace rules: keep them free of it
+        docs[k] = drop_stripped_ws(docs[k], lambda name: True)
     # modules: 0 root; others import / include chains
     sheets = [(0, None, "root")]
     nmod = r.weighted([(1, 5), (2, 3), (3, 2), (4, 1)])
@@ -295,10 +361,10 @@ def gen_case(r, cid, big=False):
     decls = []
     nd = r.weighted([(1, 3), (2, 4), (3, 3), (4, 2), (5, 1)])
     for _ in range(nd):
-        decls.append((r.below(nmod), r.choice(names), gen_pattern(r), gen_use(r)))
+        decls.append((r.below(nmod), r.choice(names), gen_pattern(r), gen_use(r, allow_ns=not rtf)))
     calls = []
     nc = r.range(2, 10 if not big else 16)
-    allvals = VALS + ["0", "3", "true", "false", "a", "b", "u-v", "au", "uv"]
+    allvals = VALS + [" ", "urn:zz", "http://www.w3.org/XML/1998/namespace", "0", "3", "true", "false", "a", "b", "u-v", "au", "uv"]
     for _ in range(nc):
         k = r.below(ndocs)
         nn = sum(1 for n in doc_nodes(docs[k]) if n[0] not in ("attr",))
@@ -308,6 +374,16 @@ def gen_case(r, cid, big=False):
             c["ctx"] = -(1 + r.below(na))      # context node = the (-ctx)-th attribute of the document
         if c["name"] not in [d[1] for d in decls]:
             c["name"] = decls[0][1]
+        if r.chance(1, 3):
+            # key() evaluated with an XPath context node that is not the XSLT current node: inside a predicate (`pred`) or as
+            # the head of a path inside a predicate (`step`) applied to every node of document `doc`, while the current node
+            # is node `curctx` of document `cur` (any document, mostly another one)
+            c["form"] = r.choice(["pred", "pred", "step"])
+            others = [j for j in range(ndocs) if j != k]
+            c["cur"] = r.choice(others) if (others and r.chance(4, 5)) else k
+            ncur = sum(1 for n in doc_nodes(docs[c["cur"]]) if n[0] != "attr")
+            c["curctx"] = r.below(ncur)
+            c["ctx"] = 0
         if r.chance(3, 5):
             c["kind"] = "str"
             if r.chance(1, 2):
@@ -323,11 +399,8 @@ def gen_case(r, cid, big=False):
     if r.chance(1, 3) and calls:   # repeat an earlier call (cache hit on a built table)
         calls.append(dict(r.choice(calls)))
     calls = r.shuffle(calls)
-    rtf = [k for k in range(1, ndocs) if r.chance(1, 3)]
     case = {"id": cid, "docs": docs, "sheets": sheets, "decls": decls, "calls": calls, "rtf": rtf}
-    if r.chance(1, 5):
-        # xsl:strip-space: the parsed documents carry whitespace-only text nodes exactly where they are stripped
-        case["strip"] = ["*"] if r.chance(1, 2) else r.shuffle(ELEMS)[: r.range(1, 3)]
+    case.update(ws)
     if r.chance(1, 12):
         # error scenario: a name no module declares (or no declaration at all)
         if r.chance(1, 4):
@@ -383,7 +456,10 @@ def brute(decls, name, rhs, base=""):
     for (_, n, pat, use) in decls:
         if n != name:
             continue
-        test = ("%s=%s" % (use, rhs)) if use_is_path(use) else ("string(%s)=%s" % (use, rhs))
+        # inside `use` the current node list holds just the node (XSLT 1.0 12.2): position() = last() = 1; inside the
+        # predicate of the brute-force expression they would mean something else, so the constant is written out
+        buse = use.replace("position()", "1").replace("last()", "1")
+        test = ("%s=%s" % (buse, rhs)) if use_is_path(use) else ("string(%s)=%s" % (buse, rhs))
         paths = pat.split("|")
         rest = "|".join(p for p in paths if p != "/")
         if rest:
@@ -420,6 +496,8 @@ def render_sheet(case, sid):
         out.append('<xsl:output method="text"/>')
         if case.get("strip"):
             out.append('<xsl:strip-space elements="%s"/>' % " ".join(case["strip"]))
+            if case.get("preserve"):
+                out.append('<xsl:preserve-space elements="%s"/>' % " ".join(case["preserve"]))
         nd = len(case["docs"])
         out.append('<xsl:variable name="D0" select="/"/>')
         for k in range(1, nd):
@@ -444,7 +522,18 @@ def render_sheet(case, sid):
                 rhs = "$A"
                 pre = '<xsl:variable name="A" select="%s"/>' % pattern_as_nodeset(c["pat"], "$D%d" % c["argdoc"])
             bmain, broot = brute(case["decls"], c["name"], rhs, "$D%d" % c["doc"])
-            out.append('<xsl:for-each select="%s">%s<xsl:variable name="K" select="key(\'%s\',%s)"/>'
+            kcall = "key('%s',%s)" % (lex_name(None, c["name"], i), rhs)
+            form = c.get("form", "top")
+            if form == "top":
+                ksel = kcall
+            else:
+                # the XSLT current node is `ctx` (a node of document cur); key() runs once per node of document doc with
+                # that node as XPath context node; K = the nodes of doc that are in their own key() result
+                cur, j = c["cur"], c["curctx"]
+                ctx = "$D%d" % cur if j == 0 else "($D%d//node())[%d]" % (cur, j)
+                kk = kcall if form == "pred" else kcall + "/self::node()"
+                ksel = "($D%d//node()|$D%d//@*|$D%d)[count(.|%s)=count(%s)]" % (c["doc"], c["doc"], c["doc"], kk, kk)
+            out.append('<xsl:for-each select="%s">%s<xsl:variable name="K" select="%s"/>'
                        '<xsl:variable name="B" select="%s"/><xsl:variable name="R" select="%s"/>'
                        '<xsl:text>Q %d </xsl:text><xsl:value-of select="count($K)"/><xsl:text> </xsl:text>'
                        '<xsl:value-of select="count($B)"/><xsl:text> </xsl:text><xsl:value-of select="count($K|$B)"/>'
@@ -452,7 +541,7 @@ def render_sheet(case, sid):
                        '<xsl:text>B </xsl:text><xsl:for-each select="$B">%s</xsl:for-each>'
                        '<xsl:text>R </xsl:text><xsl:for-each select="$R">%s</xsl:for-each><xsl:text>&#10;</xsl:text>'
                        '</xsl:for-each>'
-                       % (ctx, pre, lex_name(None, c["name"], i), rhs, bmain, broot, i, gid, gid, gid))
+                       % (ctx, pre, ksel, bmain, broot, i, gid, gid, gid))
         out.append('</xsl:template>')
     out.append('</xsl:stylesheet>')
     return "".join(out)
@@ -474,13 +563,15 @@ def request_lines(case):
     for (sid, name, pat, use) in case["decls"]:
         ls.append("decl %d %s %s %s" % (owner(case, sid), name, pat, use))
     for c in case["calls"]:
+        head = "call %d %d %s %s %s" % (c["doc"], c.get("cur", c["doc"]), "p" if c["name"].startswith("{") else "u",
+                                       "top" if c.get("form", "top") == "top" else "pred", c["name"])
         if c["kind"] == "str":
-            ls.append("call %d %s str %s" % (c["doc"], c["name"], tok(c["value"])))
+            ls.append("%s str %s" % (head, tok(c["value"])))
         else:
-            ls.append("call %d %s ns %d %s" % (c["doc"], c["name"], c["argdoc"], c["pat"]))
+            ls.append("%s ns %d %s" % (head, c["argdoc"], c["pat"]))
     for k, d in enumerate(case["docs"]):
         if k not in case.get("rtf", []):
-            ls.append("file %s %s" % ("main.xml" if k == 0 else "d%d.xml" % k, hexs(doc_xml(d, set(case["strip"]) if case.get("strip") else None))))
+            ls.append("file %s %s" % ("main.xml" if k == 0 else "d%d.xml" % k, hexs(doc_xml(d, strip_pred(case)))))
     for (sid, _, _) in case["sheets"]:
         ls.append("file %s %s" % (module_file(sid), hexs(render_sheet(case, sid))))
     ls.append("run main.xsl main.xml")
